@@ -3,7 +3,8 @@
    Host locations go through Shift (Insert) or Expand (Embed); guest locations
    through Expand(0, i).  `den` is the ordered, stranded list of denoted
    residues (model/Loc.v), `bump i n` moves positions at or after i by n. *)
-From GTS Require Import Base Arith Loc Seq BaseLemmas LocProofs EditProofs SeqProofs JoinDen JoinLift.
+From GTS Require Import Base Arith Loc Seq BaseLemmas LocProofs EditProofs SeqProofs JoinDen JoinLift RotateProofs RotateJoin InsertSeq.
+From Coq Require Import Permutation.
 Open Scope Z_scope.
 
 (* residues: host[:i] + guest + host[i:], and a panic outside 0..len(host) *)
@@ -69,3 +70,66 @@ Example C02_joins_example :
   shift l 4 3 = Ok (Joined [Ranged 0 2 true false;
                             Complemented (Joined [Ranged 3 4 false false; Ranged 7 9 false false; Point 11])]).
 Proof. vm_compute. split; reflexivity. Qed.
+
+(* Whole records.  Insert (Embed) of a guest at index i of a host: whenever
+   every location involved is free of the K1 shapes after its operation and
+   the operation returns a location (ins_host_ok / emb_host_ok / guest_ok; the
+   join-free case satisfies both by the theorems above), the call succeeds,
+   the residues are host[:i] + guest + host[i:], and the output table is a
+   permutation of  host features ++ guest features  in which every feature
+   occurs exactly once with its key and qualifiers (relocate changes the
+   location only); a host feature denotes its former residues moved past the
+   guest, a guest feature the residues it denoted in the guest, moved to i
+   (deq: up to adjacent duplicates, as Join itself reduces them).
+   M is any bound above the guest's coordinates (it only says that ambiguous
+   spans and ranges of the guest are ordinary ones). *)
+Theorem C02_insert_record : forall host i guest M,
+  let n := zlen (residues guest) in 0 <= i <= zlen (residues host) ->
+  Forall (ins_host_ok i n) (feats host) -> Forall (guest_ok i M) (feats guest) ->
+  exists gg ls ms,
+    seq_insert host i guest = Ok (mkseq gg (firstn (Z.to_nat i) (residues host) ++ residues guest ++ skipn (Z.to_nat i) (residues host))) /\
+    Forall2 (fun f l => deq (den l) (map (onpos (bump i n)) (den (floc f)))) (feats host) ls /\
+    Forall2 (fun g l => deq (den l) (map (onpos (fun x => x + i)) (den (floc g)))) (feats guest) ms /\
+    Permutation gg (relocate (feats host) ls ++ relocate (feats guest) ms).
+Proof. exact seq_insert_features. Qed.
+Print Assumptions C02_insert_record.
+
+Theorem C02_embed_record : forall host i guest M,
+  let n := zlen (residues guest) in 0 <= i <= zlen (residues host) -> 0 < n ->
+  Forall (emb_host_ok i n) (feats host) -> Forall (guest_ok i M) (feats guest) ->
+  exists gg ls ms,
+    seq_embed host i guest = Ok (mkseq gg (firstn (Z.to_nat i) (residues host) ++ residues guest ++ skipn (Z.to_nat i) (residues host))) /\
+    Forall2 (fun f l => deq (emb_den i n (den l)) (map (onpos (bump i n)) (den (floc f)))) (feats host) ls /\
+    Forall2 (fun g l => deq (den l) (map (onpos (fun x => x + i)) (den (floc g)))) (feats guest) ms /\
+    Permutation gg (relocate (feats host) ls ++ relocate (feats guest) ms).
+Proof. exact seq_embed_features. Qed.
+Print Assumptions C02_embed_record.
+
+(* the hypotheses are met by a host with a source, a spliced reverse-strand
+   gene spanning the insertion point and a point, and a guest with a range *)
+Example C02_record_hypotheses_met :
+  let host := mkseq [mkfeat [115] (Ranged 0 9 false false) [];
+                     mkfeat [103] (Complemented (Joined [Ranged 1 3 true false; Ranged 4 7 false false])) [];
+                     mkfeat [112] (Point 8) []] [97; 99; 103; 116; 97; 99; 103; 116; 97] in
+  let guest := mkseq [mkfeat [120] (Ranged 0 2 false true) []] [110; 110; 110] in
+  Forall (ins_host_ok 5 3) (feats host) /\ Forall (emb_host_ok 5 3) (feats host) /\ Forall (guest_ok 5 100) (feats guest) /\
+  seq_insert host 5 guest =
+    Ok (mkseq [mkfeat [115] (Joined [Ranged 0 5 false false; Ranged 8 12 false false]) [];
+               mkfeat [103] (Complemented (Joined [Ranged 1 3 true false; Ranged 4 5 false false; Ranged 8 10 false false])) [];
+               mkfeat [120] (Ranged 5 7 false true) [];
+               mkfeat [112] (Point 11) []]
+              [97; 99; 103; 116; 97; 110; 110; 110; 99; 103; 116; 97]).
+Proof.
+  cbv zeta. cbn [feats].
+  repeat match goal with
+  | |- _ /\ _ => split
+  | |- Forall _ (_ :: _) => constructor
+  | |- Forall _ [] => constructor
+  | |- ins_host_ok _ _ _ => split
+  | |- emb_host_ok _ _ _ => split
+  | |- guest_ok _ _ _ => split; [vm_compute; reflexivity|split]
+  | |- k1_after _ _ => apply k1_afterb_spec; vm_compute; reflexivity
+  | |- exists _, _ => eexists; vm_compute; reflexivity
+  end.
+  vm_compute. reflexivity.
+Qed.
